@@ -325,14 +325,21 @@ def check_bool_number(ctx):
     g = an.cfg(nv)
     vparam = nv.positional_params[2]
     rej_bool = False
-    for n in g.nodes:
-        if n.kind == "raise":
-            p = None
-            for t in g.nodes:
-                if t.kind == "test" and isinstance(t.ast, ast.Call) and ast.unparse(t.ast.func) == "isinstance" and ast.unparse(t.ast.args[1]) == "bool":
-                    for s, lbl in t.succ:
-                        if lbl is True and (s is n or g.path(s, lambda x: x is n, may_raise=lambda x: False, stop=lambda x: x.kind == "test")):
-                            rej_bool = True
+    ftn = an.ft(nv)
+    bool_tests = [t for t in g.nodes if t.kind == "test" and isinstance(t.ast, ast.Call) and ast.unparse(t.ast.func) == "isinstance"
+                  and ast.unparse(t.ast.args[1]) == "bool"]
+    int_gates = [t for t in g.nodes if t.kind == "test" and isinstance(t.ast, ast.Call) and ast.unparse(t.ast.func) == "isinstance"
+                 and ("int" in (ftn.class_spec(t.ast.args[1], {}) or []) or "int" in ast.unparse(t.ast.args[1]).replace("(", " ").replace(")", " ").replace(",", " ").split())
+                 and t not in bool_tests]
+    for bt in bool_tests:
+        raises = any(lbl is True and (s.kind == "raise" or g.path(s, lambda x: x.kind == "raise", may_raise=lambda x: False, stop=lambda x: x.kind == "test"))
+                     for s, lbl in bt.succ)
+        # the bool test must be evaluated for values that pass the numeric type gate (bool is an int) -- or before the gate
+        reachable_for_ints = not int_gates or any(
+            g.path(s, lambda x, bt=bt: x is bt, may_raise=lambda x: False) for gt in int_gates for s, lbl in gt.succ if lbl is True) or \
+            any(g.path(bt, lambda x, gt=gt: x is gt, may_raise=lambda x: False, from_successors=True) for gt in int_gates)
+        if raises and reachable_for_ints:
+            rej_bool = True
     ctx.ob("number.rejects-bool", nv, "isinstance(value, bool) -> raise", rej_bool, "True/False are not accepted as numbers" if rej_bool else
            "NumberField accepts bool values as numbers")
     conv = [n for n in g.nodes if n.kind == "call" and isinstance(n.ast.func, ast.Attribute) and n.ast.func.attr == "type_cls"]
